@@ -11,6 +11,7 @@ import (
 	"mime/multipart"
 	"net"
 	"net/http"
+	"net/textproto"
 	"net/url"
 	"strings"
 	"time"
@@ -61,12 +62,12 @@ func init() {
 }
 
 type env struct {
-	ipfs     *sim.FakeIPFS
-	rec      *sim.RPCRecorder
-	proxy    *ipfsproxy.Server
-	base     string
-	hc       *http.Client
-	failRPC  string
+	ipfs    *sim.FakeIPFS
+	rec     *sim.RPCRecorder
+	proxy   *ipfsproxy.Server
+	base    string
+	hc      *http.Client
+	failRPC string
 }
 
 func setup(c *fw.Ctx) {
@@ -169,10 +170,11 @@ func names(cs []sim.Call) string {
 }
 
 type resp struct {
-	status int
-	body   []byte
-	hdr    http.Header
-	err    error
+	status  int
+	body    []byte
+	hdr     http.Header
+	trailer http.Header
+	err     error
 }
 
 func (e *env) do(method, u string, body []byte, ctype string) resp {
@@ -194,7 +196,7 @@ func (e *env) do(method, u string, body []byte, ctype string) resp {
 	}
 	defer res.Body.Close()
 	b, _ := ioutil.ReadAll(res.Body)
-	return resp{status: res.StatusCode, body: b, hdr: res.Header}
+	return resp{status: res.StatusCode, body: b, hdr: res.Header, trailer: res.Trailer}
 }
 
 // daemonSaw returns the requests the daemon received for path under a method
@@ -574,6 +576,47 @@ func addCases(c *fw.Ctx, e *env, r *fw.Rand) {
 		method := r.Pick("POST", "POST", "PUT")
 		e.rec.Reset()
 		e.ipfs.ResetLog()
+		// an upload whose first part is fine and whose later part cannot be read
+		// (impossible content type, or the body ends between parts)
+		if valid && !wantUnpin && r.Chance(1, 5) {
+			var b2 bytes.Buffer
+			mw2 := multipart.NewWriter(&b2)
+			p1, _ := mw2.CreateFormFile("file", "first.bin")
+			p1.Write(r.Bytes(r.Range(1, 3000)))
+			kind := r.Pick("bad-content-type", "truncated")
+			if kind == "bad-content-type" {
+				h := textproto.MIMEHeader{}
+				h.Set("Content-Disposition", `form-data; name="file"; filename="second.bin"`)
+				h.Set("Content-Type", "a/b/c; =")
+				p2, _ := mw2.CreatePart(h)
+				p2.Write(r.Bytes(100))
+				mw2.Close()
+			} else {
+				p2, _ := mw2.CreateFormFile("file", "second.bin")
+				p2.Write(r.Bytes(2000))
+				// no closing boundary, and cut inside the second part's header area
+				cut := bytes.LastIndex(b2.Bytes(), []byte("--"+mw2.Boundary()))
+				b2.Truncate(cut + len(mw2.Boundary())/2)
+			}
+			res := e.do(method, e.base+"/api/v0/add?"+q.Encode(), b2.Bytes(), mw2.FormDataContentType())
+			if res.err != nil {
+				c.Inconclusive("http add: " + res.err.Error())
+				continue
+			}
+			time.Sleep(50 * time.Millisecond)
+			pins := 0
+			for _, cl := range e.rec.Calls() {
+				if cl.Name() == "Cluster.Pin" {
+					pins++
+				}
+			}
+			answeredError := res.status >= 400 || res.trailer.Get("X-Stream-Error") != "" || bytes.Contains(res.body, []byte(`"Type":"error"`))
+			c.Eval(fmt.Sprintf("add/later-part-%s/%s/error=%v", kind, shape, answeredError))
+			if answeredError && pins > 0 {
+				c.Violation("C12/error-response-but-operation-performed/add/later-part-"+kind, fmt.Sprintf("the upload's later part was unreadable, the proxy answered an error (status %d, trailer %q) and %d Cluster.Pin calls were made", res.status, res.trailer.Get("X-Stream-Error"), pins), nil)
+			}
+			continue
+		}
 		badBody := r.Chance(1, 8)
 		var res resp
 		if badBody {
